@@ -1536,9 +1536,14 @@ class StateEngine(object):
             cause the execution to fail. Similarly, with a Task.Terminated
             error we want terminated Tasks to end immediately.
             A retry or catch on States.ALL will not catch these errors.
+            Exceeding the execution history quota is a property of the
+            execution, not of the state that happened to be entered: if it
+            could be retried or caught the execution would carry on and its
+            history would carry on growing.
             """
             unrecoverable = (error_type == "States.Runtime" or
                              error_type == "States.ExecutionTimeout" or
+                             error_type == "States.ExecutionHistoryLimitExceeded" or
                              error_type == "Task.Terminated")
 
             retry = state.get("Retry")
